@@ -353,6 +353,7 @@ static bool exhaustive(const rt::Args &args, rt::Stats &stats, rt::Failure &fail
                         if (via == 0) c.ops.push_back(mk(REMOVE, {(long)target + 2}));
                         else { std::vector<long> acts(K, 0); acts[target] = 1; c.ops.push_back(mk(ITR, acts)); }
                         c.ops.push_back(mk(INSERT, {(long)target + 2})); // re-insert: the set keeps working
+                        rt::watch_tick(&c);
                         rt::Verdict v = args.fork_per_case ? rt::run_forked(args.prop, [&] { return eval_case(c, args); }) : eval_case(c, args);
                         total++;
                         stats.record(to_text(c), v);
@@ -375,6 +376,7 @@ int main(int argc, char **argv) {
     E.from_text = from_text;
     E.default_cases = [](const rt::Args &a) { return a.tier == "thorough" ? 100000L : 4000L; };
     E.exhaustive = exhaustive;
+    E.hang_is_failure = true;
     return rcm::run(argc, argv, E);
 }
 #endif // !FUZZ_TARGET
